@@ -18,6 +18,24 @@ type GenOpt struct {
 	BigBodies bool // allow > 64 KiB
 	MaxBody   int  // cap on generated body size (0: none)
 	NoBodyGET bool // never give GET/HEAD a body
+	ForceBody bool // always a framed body on a body-carrying method
+	Hostile   bool // bodies may consist of bytes that look like chunk framing + a request
+}
+
+// HostileUnit is body content that, if ever parsed as framing, reads as
+// "last chunk, end of trailers, then a complete request".
+func HostileUnit(idx int) string {
+	return fmt.Sprintf("0\r\n\r\nPOST /smuggled-%d HTTP/1.1\r\nHost: evil\r\nContent-Length: 0\r\n\r\n", idx)
+}
+
+// HostileBody builds n bytes out of repeated hostile units.
+func HostileBody(idx, n int) []byte {
+	u := HostileUnit(idx)
+	b := make([]byte, 0, n+len(u))
+	for len(b) < n {
+		b = append(b, u...)
+	}
+	return b[:n]
 }
 
 // GenReq is a generated request with ground truth.
@@ -35,6 +53,8 @@ type GenReq struct {
 	UA         string
 	ExpTrailer []wire.Header
 	HasFold    bool
+	Framed     bool // carries Content-Length or Transfer-Encoding
+	Hostile    bool
 }
 
 var bodySizes = []int{0, 1, 2, 7, 100, 1000, 4095, 4096, 4097, 8191, 8192, 8193, 12000, 65537}
@@ -150,9 +170,9 @@ func GenRequest(tp *core.Tape, idx int, last bool, o GenOpt) *GenReq {
 	g := &GenReq{}
 	m := &wire.Msg{Proto: "HTTP/1.1"}
 	g.M = m
-	hasBody := tp.Chance("hasbody", 6, 10)
+	hasBody := tp.Chance("hasbody", 6, 10) || o.ForceBody
 	if hasBody {
-		if o.NoBodyGET {
+		if o.NoBodyGET || o.ForceBody {
 			m.Method = methodsBody[tp.Choose("method", len(methodsBody))]
 		} else {
 			m.Method = methodsAny[tp.Choose("method", len(methodsAny))]
@@ -194,6 +214,10 @@ func GenRequest(tp *core.Tape, idx int, last bool, o GenOpt) *GenReq {
 	}
 	if hasBody {
 		m.Body = core.PatternBytes(byte(idx*7+1), pickSize(tp, o))
+		if o.Hostile && tp.Chance("hostile", 1, 3) {
+			m.Body = HostileBody(idx, len(m.Body))
+			g.Hostile = true
+		}
 		if tp.Chance("ct", 1, 2) {
 			g.CT = "application/octet-stream"
 			m.Headers = append(m.Headers, wire.Header{K: mixCase(tp, "Content-Type"), V: g.CT})
@@ -275,6 +299,7 @@ func GenRequest(tp *core.Tape, idx int, last bool, o GenOpt) *GenReq {
 		}
 		m.Headers = append(m.Headers[:at], append([]wire.Header{fh}, m.Headers[at:]...)...)
 		m.NoFraming = true
+		g.Framed = true
 	}
 	g.Bytes, g.Bounds = m.Encode()
 	// find end of header block
